@@ -5,20 +5,40 @@ in which the three storage-library entry points the code uses (h5py AttributeMan
 Group.create_dataset, Dataset.__setitem__) are counted (patched by this harness inside the child only --
 no repository hook); the child dies with os._exit when n calls have completed (n = number of calls:
 all calls made, file not yet closed; n = null: the write completes).  Checked per case:
-  (b) property: the file left by a killed writer does not load (if it loads as something different from
+  (b) property: the file left by a dead writer does not load (if it loads as something different from
       x: violation); the file of a completed write loads as x;
-  (a1) the calls observed before the kill are exactly the first n elements of the model's dump_ops x;
+  (a1) the calls observed before the death are exactly the first n elements of the model's dump_ops x
+       (Model/Store.v: attributes, datasets, the format marker LAST -- the order of repo_fixes/C19-marker-last.diff;
+       a writer that still issues the order as found, dump_ops_v0 = marker first, is named as such);
   (a2) the error class agrees with the model's load_file / load_file_cur under the AtClose policy
-       (Model/Store.v crash_disk), which is thereby validated on every run.
-Under an eager-flush policy the marker-first order is unsafe (Props/C19.v: C19_eager_refuted); the
-model's Eager prediction was checked by hand against a writer that flushes after every dataset write.
+       (Model/Store.v crash_disk) for a killed writer, which is thereby validated on every run, and with
+       load_file (raised_disk (first m calls)) for a writer that died by an exception.
+
+Dimension DEATH MODE (all three kinds) -- HOW the writer dies.  A process does not only die by kill -9: Ctrl-C
+(KeyboardInterrupt), sys.exit() from a signal handler (SystemExit), MemoryError, an I/O error of one dataset write
+(OSError ENOSPC), an exception of the object the signatures come from.  Such a death UNWINDS: the exception leaves
+dump_signatures through `with h5.File(path, 'w')`, h5py closes the file cleanly, and everything done so far -- attributes,
+datasets, the zero-filled space of signatures not yet written -- is in a well-formed HDF5 file (policy Eager / raised_disk
+of the model, not AtClose).  With the marker written first that file LOADS, zero-filled (Props/C19.v
+C19_marker_first_raised_refuted; the defect found in the code as found); with the marker written last it is refused at
+every point (C19_marker_last_any_policy, C19_exception_death, C19_complete_any_policy).  Modes:
+  exit / sigkill   os._exit / SIGKILL at the boundary (no unwinding; the streams that existed before)
+  raise            the hook of storage call j raises the exception (KeyboardInterrupt, SystemExit, MemoryError, OSError(ENOSPC),
+                   RuntimeError -- the type rotates), which then propagates out of dump_signatures / the command normally
+  sigint, sigterm  (over_kill, cli_kill) a real SIGINT / SIGTERM is delivered to the child at store call j: Python raises
+                   KeyboardInterrupt there (click turns it into Abort); SIGTERM kills at once unless the writer installed a handler
+  source           the signature SOURCE raises at its i-th access by the writer: the class of the container that holds the
+                   signatures is replaced by a subclass whose integer __getitem__ / sizes() (values / bounds of a SignatureArray
+                   on the whole-array path) count and raise
+Judged exactly as the property says: whatever is at the path after the writer died is refused by load_signatures or loads as
+exactly the requested collection.  A point that is never reached (beyond the last call / access) is a completed write.
 
 Kind `cli_kill` -- the same question asked of the WRITER PROCESS the property's anchors name, the command
 `gambit signatures create -k K -p PREFIX -o OUT [-i IDS] [-m META] FILES...` as a whole (property only, no
 model tie: the theorems speak about one dump_signatures call, the command may do anything with OUT before
 it).  The real click command runs in a forked child (own process group) on FASTA files the harness wrote;
 the child counts two classes of events in its main process and dies (os._exit or SIGKILL to itself, then
-the whole group is killed) immediately BEFORE the j-th event of one class:
+the whole group is killed; or by an exception / signal, see DEATH MODE) immediately BEFORE the j-th event of one class:
   calc   entry of calc_file_signatures, every progress-meter increment (= one more signature computed),
          return of calc_file_signatures                      -> kills before / during / after the calculation
   store  h5py File.__init__, AttributeManager.__setitem__, Group.create_dataset, Dataset.__setitem__,
@@ -46,30 +66,44 @@ So the kill points are enumerated again with the path holding, before the write,
               set in a sub-group; the marker without datasets)
 The writer runs in a forked child that counts its storage-library calls from the open of the file (File.__init__,
 attribute set/delete, create_dataset, create_group, dataset write, resize, delete, flush, File.__exit__) and dies
-(os._exit or SIGKILL) immediately before the j-th.  Judged exactly as the property says: once the writer HAS
+(any DEATH MODE) immediately before the j-th.  Judged exactly as the property says: once the writer HAS
 STARTED ON THE PATH (one of its completed calls opened that path for writing, or the bytes at the path are no
 longer those of the old file) what is at the path is absent, refused by load_signatures, or loads as exactly the
 REQUESTED collection -- the old collection, or a mixture of old and new, being accepted is the violation (an
 accepted file whose content cannot be read counts as a different collection).  A writer that died BEFORE it
 touched the path (old file byte-identical, no write-open completed) has left no partial file: counted, not
-judged.  A completed overwrite loads as requested.  Tie: after a kill the remains are not a readable HDF5 file
+judged.  A completed overwrite loads as requested.  Tie: after a KILL the remains are not a readable HDF5 file
 (hypothesis `unparsable junk` of C19_atclose / C19_complete, reported as a broken obligation).
 
 Coverage (streams of generate; quick / thorough):
-  stream                              kind       writer            path before      kill points                     payload
-  every-boundary                      crash      dump_signatures   fresh            every boundary + completed      small, 35 / 135 collections
-  large-payload                       crash      dump_signatures   fresh            4 / every boundary              multi-megabyte
-  cli-kill-every-point                cli_kill   signatures create fresh            every calc + store point        small
-  cli-kill-random                     cli_kill   signatures create fresh            4 / 10 per command              small
-  overwrite-every-point               over_kill  dump_signatures   coll x3, same    every store point + completed   small, both write paths
-  overwrite-random                    over_kill  dump_signatures   all six forms    3 / 8 per collection            small
+  stream                              kind       writer            path before      death mode       death points                    payload
+  every-boundary                      crash      dump_signatures   fresh            exit             every boundary + completed      small, 35 / 135 collections
+  every-call-raise                    crash      dump_signatures   fresh            raise (5 types)  every storage call              small, 19 / all collections, both write paths
+  source-exception                    crash      dump_signatures   fresh            source (5 types) every access of the source + 1  small, 15 / all collections, both write paths
+  large-payload                       crash      dump_signatures   fresh            exit             4 / every boundary              multi-megabyte
+  large-payload-raise                 crash      dump_signatures   fresh            raise            2 in the loop / every call      multi-megabyte
+  cli-kill-every-point                cli_kill   signatures create fresh            exit, sigkill    every calc + store point        small
+  cli-{raise,sigint,sigterm}-every-point  cli_kill  signatures create  fresh        raise, SIGINT, SIGTERM   every calc + store point (quick: all three for the first command, SIGINT for the second)
+  cli-kill-random                     cli_kill   signatures create fresh            any of the five  4 / 10 per command              small
+  overwrite-every-point               over_kill  dump_signatures   coll x3, same    exit             every store point + completed   small, both write paths
+  overwrite-every-point-raise         over_kill  dump_signatures   coll, same, none / + the other two colls   raise (5 types)   every store point (open .. close)   small, both write paths
+  overwrite-every-point-signal        over_kill  dump_signatures   coll / all five  SIGINT, SIGTERM alternating   every store point              small, both write paths
+  overwrite-source-exception          over_kill  dump_signatures   coll, same, none / all five   source      every access of the source + 1  small, both write paths
+  overwrite-random                    over_kill  dump_signatures   all six forms    any of the five  3 / 8 per collection            small
   overwrite-large-payload             over_kill  dump_signatures   coll (smaller, equal, larger), multi-megabyte
-                                                                                    3 in the per-signature phase / every point
-                                                                                                                    multi-megabyte
-  cli-kill-overwrite-every-point      cli_kill   signatures create coll             every calc + store point        small
-  cli-kill-overwrite-random           cli_kill   signatures create all but none     3 per command                   small
+                                                                                    sigkill          3 in the per-signature phase / every point
+                                                                                                                                     multi-megabyte
+  overwrite-large-payload-raise       over_kill  dump_signatures   the same         raise MemoryError, SIGINT   1 in the per-signature phase / every point   multi-megabyte
+  cli-kill-overwrite-every-point      cli_kill   signatures create coll             sigkill          every calc + store point        small
+  cli-{sigint,raise}-overwrite-every-point  cli_kill  signatures create  coll      SIGINT, raise (thorough: + SIGTERM)   every store point (thorough: + calc points)
+  cli-kill-overwrite-random           cli_kill   signatures create all but none     any of the five  3 per command                   small
   corpus                              (runs first) cli kills during/after the calculation, the Eager witness, an overwrite of an
-                                      integer-id collection killed in the per-signature phase (dump_signatures and the command)"""
+                                      integer-id collection killed in the per-signature phase (dump_signatures and the command);
+                                      EXCEPTION DEATHS in the per-signature loop: the Coq witness of C19_marker_first_raised_refuted
+                                      (Ctrl-C before the last per-signature write), disk full one call earlier, Ctrl-C raised by the
+                                      signature source (the reproduction /var/tmp/c19probe of the defect), MemoryError of the source on
+                                      the whole-array path, SystemExit / SIGINT while overwriting a previous version, Ctrl-C and
+                                      SystemExit in the final write of the command"""
 import json
 import os
 import shutil
@@ -78,10 +112,12 @@ import signal
 from harness import c12
 
 PROP = 'C19'
-RULE = ('crash: (collection, boundary n) -> writer killed after n storage-library calls -> load_signatures on the '
-        'remains; non-trivial: n >= 10 (marker and metadata attributes already written, i.e. the file would be '
-        'accepted if its metadata had reached the disk) or the completed write of a collection with >= 2 '
-        'signatures of different lengths'
+RULE = ('crash: (collection, boundary n, death mode) -> writer killed after n storage-library calls, or raising an exception '
+        '(KeyboardInterrupt, SystemExit, MemoryError, OSError ENOSPC, RuntimeError) inside storage call n, or interrupted by such an '
+        'exception of the signature source at its i-th access -> load_signatures on the '
+        'remains; non-trivial: the writer died after >= 10 completed calls (all metadata attributes and the ids dataset written, i.e. '
+        'with the format marker written first the file would be accepted once its metadata is on the disk) or the completed write of '
+        'a collection with >= 2 signatures of different lengths'
         ' | cli_kill: (k, prefix, FASTA genomes, ids/metadata options, cores, progress, file-list channel, kill point) -> '
         '`gambit signatures create -o OUT` in a child process killed before the j-th calc event (before/during/after the '
         'signature calculation) or before the j-th storage-library call of the whole command -> OUT absent, refused by '
@@ -93,12 +129,19 @@ RULE = ('crash: (collection, boundary n) -> writer killed after n storage-librar
         '(counted from the open of the file) -> once the writer has started on the path (a completed call opened it for writing, or its '
         'bytes changed) the path is absent, refused by load_signatures, or loads exactly as requested -- never as the old collection or a '
         'mixture; a writer that died before touching the path is counted, not judged; non-trivial: the path held the complete file of '
-        'a different collection and the writer had started on it when it was killed (or completed)')
+        'a different collection and the writer had started on it when it was killed (or completed)'
+        ' | death modes of over_kill / cli_kill: os._exit, SIGKILL, an exception raised inside the hook of the j-th event, a real SIGINT, a real '
+        'SIGTERM, (over_kill) an exception of the signature source')
 TRUSTED = ['libhdf5 / OS durability: nothing parseable reaches the disk before close (policy AtClose of '
            'Model/Store.v) -- an assumption of the theorems, observed by this enumeration at every boundary',
            'h5py call interception in the child process (AttributeManager.__setitem__, Group.create_dataset, '
            'Dataset.__setitem__, File.__exit__) sees every storage call HDF5Signatures.create makes',
            'os._exit models process death (no atexit handlers, no libhdf5 shutdown flush)',
+           'exception deaths: the exception is raised by the harness\'s hook immediately BEFORE storage call j is made (the call itself is not '
+           'made), or by a subclass the harness substitutes for the class of the signature container; once it has left dump_signatures / the '
+           'click command the child is ended with os._exit (what the interpreter would still do at exit -- the file is already closed by the '
+           '`with` block -- is not run); real SIGINT / SIGTERM are sent by the child to itself at the hook, with the dispositions of a fresh '
+           'Python process (default_int_handler, SIG_DFL) restored first',
            'cli_kill: os._exit / SIGKILL of the command\'s main process followed by SIGKILL of its process group models the death '
            'of the writer (worker processes of the pool never touch OUT); the hooks (wrapper around every binding of '
            'gambit.sigs.calc.calc_file_signatures, increment of the progress-meter classes, the h5py entry points) are installed '
@@ -110,8 +153,8 @@ TRUSTED = ['libhdf5 / OS durability: nothing parseable reaches the disk before c
            'is read off the completed h5py.File(path, mode != r) calls of the child and a byte comparison (SHA-1) of the path before '
            'and after; the added h5py hooks (Group.__delitem__, AttributeManager.__delitem__, Group.create_group, Dataset.resize, '
            'File.flush) only add kill points for writers that use them'] + c12.TRUSTED[:1]
-ASSUMPTIONS = ['the writer is killed between two storage-library calls (a kill inside libhdf5 while it writes raw '
-               'chunk data is not enumerated)',
+ASSUMPTIONS = ['the writer dies between two storage-library calls (a kill inside libhdf5 while it writes raw '
+               'chunk data, and an exception raised half-way through one h5py call, are not enumerated)',
                'no explicit flush and no SWMR mode: HDF5Signatures.create / dump_signatures_hdf5 as in the repository',
                'cli_kill / over_kill: an older file left in place, byte for byte, by a writer that died before touching the output path '
                'is not a partial file (such kill points are counted, not judged); kills are placed at calc events and storage-library '
@@ -130,17 +173,75 @@ def render_call(kind, name, info):
 	return [kind, name] + info
 
 
-def child_main(case, path, n, logfd, short):
-	"""runs in the forked child: patch, write, die at boundary n"""
+# ---- death by an exception (mode `raise`, `source`; kills `raise`, `sigint`, `sigterm`) ---------------------------------
+
+EXCS = ('KeyboardInterrupt', 'SystemExit', 'MemoryError', 'ENOSPC', 'RuntimeError')
+RAISE_EXIT = 18
+
+
+def make_exc(name):
+	"""the exception a dying writer raises: Ctrl-C, sys.exit() of a signal handler, out of memory, disk full, anything else"""
+	import errno
+	if name == 'ENOSPC':
+		return OSError(errno.ENOSPC, os.strerror(errno.ENOSPC))
+	if name == 'SystemExit':
+		return SystemExit(1)
+	return {'KeyboardInterrupt': KeyboardInterrupt, 'MemoryError': MemoryError, 'RuntimeError': RuntimeError}[name]('injected by the C19 harness')
+
+
+def arm_source(obj, at, exc, fired):
+	"""makes the signature SOURCE raise at its `at`-th access by the writer (counted from 0): an integer __getitem__ or a sizes()
+	call of the container that holds the signatures (for a SignatureArray written through the whole-array path: a read of its
+	`values` / `bounds`).  The class of the container is replaced by a subclass of itself; nothing else changes."""
+	import numpy as np
+	from gambit.sigs import AnnotatedSignatures, SignatureArray
+	inner = obj.signatures if isinstance(obj, AnnotatedSignatures) else obj
+	cls = type(inner)
+	whole = isinstance(obj, SignatureArray)
+	seen = [0]
+
+	def tick():
+		seen[0] += 1
+		if seen[0] - 1 == at and not fired[0]:
+			fired[0] = True
+			raise make_exc(exc)
+
+	class Source(cls):
+		def __getitem__(self, i):
+			if isinstance(i, (int, np.integer)):
+				tick()
+			return cls.__getitem__(self, i)
+
+		def sizes(self):
+			tick()
+			return cls.sizes(self)
+
+		def __getattribute__(self, name):
+			if whole and name in ('values', 'bounds'):
+				tick()
+			return cls.__getattribute__(self, name)
+
+	Source.__name__, Source.__qualname__ = cls.__name__, cls.__qualname__
+	inner.__class__ = Source
+
+
+def child_main(case, path, n, logfd, short, death=None):
+	"""runs in the forked child: patch, write, die at boundary n -- by os._exit, or (death = {mode: raise, exc}) by raising
+	exc inside the hook of storage call n, or (death = {mode: source, at, exc}) by an exception of the signature source"""
 	import numpy as np
 	import h5py
 	from gambit.sigs import dump_signatures
 	done = [0]
+	fired = [False]
+	mode = death['mode'] if death else 'exit'
 	oa, oc, od, ox = (h5py.AttributeManager.__setitem__, h5py.Group.create_dataset, h5py.Dataset.__setitem__, h5py.File.__exit__)
 	other = {}
 
 	def gate():
-		if n is not None and done[0] == n:
+		if n is not None and done[0] == n and not fired[0]:
+			if mode == 'raise':
+				fired[0] = True
+				raise make_exc(death['exc'])
 			os._exit(17)
 
 	def log(rec):
@@ -195,7 +296,9 @@ def child_main(case, path, n, logfd, short):
 		return r
 
 	def px(self, *a):
-		gate()
+		if mode == 'exit':
+			# a writer that raises leaves the `with` block through this very call: the exception deaths are placed at the storage calls
+			gate()
 		return ox(self, *a)
 
 	h5py.AttributeManager.__setitem__ = pa
@@ -203,19 +306,28 @@ def child_main(case, path, n, logfd, short):
 	h5py.Dataset.__setitem__ = pd
 	h5py.File.__exit__ = px
 	obj = c12.build(case)
+	if mode == 'source':
+		arm_source(obj, death['at'], death['exc'], fired)
 	kw = {} if case.get('compression') is None else dict(compression=case['compression'])
-	dump_signatures(path, obj, **kw)
+	try:
+		dump_signatures(path, obj, **kw)
+	except BaseException as e:
+		if not fired[0]:
+			raise
+		# the injected exception came out of dump_signatures (the `with h5.File` block has closed the file): the writer is dead
+		os.write(logfd, (json.dumps(['RAISED', type(e).__name__]) + '\n').encode())
+		os._exit(RAISE_EXIT)
 	os._exit(0)
 
 
-def run_writer(case, path, n, short):
+def run_writer(case, path, n, short, death=None):
 	"""-> (exit code of the child, list of observed calls)"""
 	logpath = path + '.log'
 	logfd = os.open(logpath, os.O_WRONLY | os.O_CREAT | os.O_TRUNC, 0o600)
 	pid = os.fork()
 	if pid == 0:
 		try:
-			child_main(case, path, n, logfd, short)
+			child_main(case, path, n, logfd, short, death)
 		except BaseException as e:
 			try:
 				os.write(logfd, (json.dumps(['EXC', repr(e)]) + '\n').encode())
@@ -234,21 +346,27 @@ def run_writer(case, path, n, short):
 def k_crash(ctx, cases):
 	import numpy as np
 	from gambit.sigs import load_signatures
-	# model: the call list of every collection in this batch (once per distinct collection)
+	# model: the call list of every collection in this batch (once per distinct collection), in the repaired order (dump_ops,
+	# marker last) and in the order as found (dump_ops_v0, marker first; only to name the difference)
 	colls = {}
 	for c in cases:
 		key = json.dumps(c['coll'], sort_keys=True)
 		if key not in colls:
 			colls[key] = c
 	full = {key: expand(c['coll']) for key, c in colls.items()}
-	reqs = [((1902 if c.get('short') else 1901), [c12.path_of(full[key]), c12.mcoll(full[key])]) for key, c in colls.items()]
+	reqs = []
+	for key, c in colls.items():
+		arg = [c12.path_of(full[key]), c12.mcoll(full[key])]
+		reqs += [((1902 if c.get('short') else 1901), arg), ((1908 if c.get('short') else 1907), arg)]
 	ops_ans = ctx.model(reqs) if ctx.model_ok else None
-	ops = dict(zip(colls.keys(), ops_ans)) if ops_ans else {}
+	ops = {key: ops_ans[2 * i] for i, key in enumerate(colls)} if ops_ans else {}
+	ops_v0 = {key: ops_ans[2 * i + 1] for i, key in enumerate(colls)} if ops_ans else {}
 	results = []
 	for c in cases:
-		coll, n, short = full[json.dumps(c['coll'], sort_keys=True)], c['n'], bool(c.get('short'))
+		coll, n, short = full[json.dumps(c['coll'], sort_keys=True)], c.get('n'), bool(c.get('short'))
 		path = c12.tmp('cr') + '.gs'
-		code, calls = run_writer(coll, path, n, short)
+		code, calls = run_writer(coll, path, n, short, c.get('death'))
+		raised = calls.pop()[1] if calls and calls[-1][0] == 'RAISED' else None
 		exists = os.path.exists(path)
 		head = b''
 		if exists:
@@ -256,14 +374,21 @@ def k_crash(ctx, cases):
 				head = f.read(64)
 		cl = c12.classify_raw(path, head) if exists else 0
 		got = load_remains(load_signatures, path, coll, None, None, None)[0]
-		results.append((c, code, calls, cl, head, got))
+		results.append((c, code, calls, cl, head, got, raised))
 		c12._rm(path)
-	reqs = []
+	reqs, at = [], []
 	tiny = dict(k=5, prefix='AT', dtype='u2', sigs=[[1]], container='list', compression=None, ids=None, meta=None)
-	for c, code, calls, cl, head, got in results:
+	for c, code, calls, cl, head, got, raised in results:
+		at.append(len(reqs))
 		coll = full[json.dumps(c['coll'], sort_keys=True)]
 		p, mc = c12.path_of(coll), c12.mcoll(coll)
-		if c['n'] is None:
+		if c.get('death') and code == RAISE_EXIT:
+			# the writer raised after len(calls) completed calls and the file was closed: Raised (firstn m dump_ops) of Proofs/C19.v
+			m = len(calls)
+			if c.get('short'):
+				p, mc, m = 1, c12.mcoll(tiny), min(m, 3)
+			reqs += [(1909, [p, mc, m]), (1910, [p, mc, m])]
+		elif c.get('n') is None or c.get('death'):
 			reqs += [(1904, [p, mc]), (1904, [p, mc])]
 		else:
 			if c.get('short'):
@@ -271,20 +396,83 @@ def k_crash(ctx, cases):
 				# collection); a multi-megabyte collection is not shipped to the model once per boundary
 				p, mc = 1, c12.mcoll(tiny)
 			junk = [cl if cl is not None else 0, list(head)]
-			reqs += [(1903, [0, p, mc, min(c['n'], 3) if c.get('short') else c['n'], junk]), (1906, [0, p, mc, min(c['n'], 3) if c.get('short') else c['n'], junk])]
+			# what libhdf5 left decides the policy the model is asked about: remains it cannot read = AtClose;
+			# a readable HDF5 file = some of the completed calls are on the disk although the file was never closed (a writer that
+			# flushes, SWMR, ...): FlushedAt k for some k <= n, asked for k = n (Eager) and for a k < n.
+			# With the marker last ALL of these are proved safe (C19_marker_last_any_policy), so none is an assumption of the verdict.
+			nn = min(c['n'], 3) if c.get('short') else c['n']
+			for pol in ([0] if cl is not None else [1, 2 + max(nn - 1, 0)]):
+				reqs += [(1903, [pol, p, mc, nn, junk]), (1906, [pol, p, mc, nn, junk])]
 	ans = ctx.model(reqs) if ctx.model_ok else None
-	for i, (c, code, calls, cl, head, got) in enumerate(results):
+	canon = lambda l: [[o[0], o[1], c12.canon_extra(o[2])] if o[:2] == [0, 8] else o for o in l]
+
+	def same_calls(calls, want, key, coll, what):
+		"""(a1) the observed calls are the model's; False (and a broken obligation) otherwise"""
+		if canon(calls) == canon(want):
+			return True
+		v0 = ops_v0.get(key)
+		j = next((j for j in range(min(len(calls), len(want))) if calls[j] != want[j]), min(len(calls), len(want)))
+		if v0 is not None and canon(calls) == canon(v0[:len(calls)]):
+			ctx.broke('correspondence crash (the storage calls come in the order as found, dump_ops_v0: format marker FIRST -- unsafe when the '
+			          'writer dies by an exception, Props/C19.v C19_marker_first_raised_refuted; the model of the repaired code writes it LAST)',
+			          f'{what}: call {j} is {calls[j:j + 1]}, dump_ops has {want[j:j + 1]} on {coll}')
+		else:
+			ctx.broke('correspondence crash (sequence of storage calls != dump_ops)',
+			          f'{what}: first difference at call {j}: impl {calls[j:j + 1]} model {want[j:j + 1]} (impl {len(calls)} calls, model {len(want)}) on {coll}')
+		return False
+
+	for i, (c, code, calls, cl, head, got, raised) in enumerate(results):
 		key = json.dumps(c['coll'], sort_keys=True)
-		coll, n = full[key], c['n']
+		coll, n, death = full[key], c.get('n'), c.get('death')
 		mops = ops.get(key)
 		total = len(mops) if mops is not None else None
 		lens = {len(x) for x in coll['sigs']}
-		ctx.case(c, nontrivial=(n is not None and n >= 10) or (n is None and len(lens) >= 2))
+		if death:
+			# non-trivial: the writer died by the exception after the ids dataset was created (all attributes of the order as found
+			# written), or the exception point was never reached and the write of >= 2 different signatures completed
+			ctx.case(c, nontrivial=(code == RAISE_EXIT and len(calls) >= 10) or (code == 0 and len(lens) >= 2))
+		else:
+			ctx.case(c, nontrivial=(n is not None and n >= 10) or (n is None and len(lens) >= 2))
 		if code == 3 and calls and calls[-1][0] == 'EXC':
-			ctx.broke('fault injection (writer raised in the child)', f'{calls[-1]} at boundary {n}')
+			ctx.broke('fault injection (writer raised in the child)', f'{calls[-1]} at boundary {n}, death {death}')
 			continue
+		completed = n is None and not death
+		if death:
+			# ---- death by an exception: raised inside the hook of storage call n, or by the signature source at its at-th access
+			where = (f'raised {death["exc"]} at storage call {n}' if death['mode'] == 'raise' else
+			         f'was interrupted by {death["exc"]} raised by the signature source at its access {death["at"]}')
+			if code == 0:
+				completed = True   # the point lies beyond the last call / access: an undisturbed write, judged as such below
+			elif code != RAISE_EXIT or raised is None:
+				ctx.broke('fault injection (exception death)', f'child exit {code}, {where}: {calls[-1:]}')
+				continue
+			else:
+				m = len(calls)
+				if got[0] == 'ok' and got[1]:
+					ctx.violation('crash', c, f'a writer that {where} ({raised} left dump_signatures after {m} completed storage calls; the `with h5.File` '
+					              f'block closed the file) left a file that is ACCEPTED and loads as a different collection: {"; ".join(got[1][:3])}',
+					              impl=got[2], spec='refused', model=ans and c12.mres(ans[at[i]][0]),
+					              model_of_the_order_as_found=ans and c12.mres(ans[at[i] + 1][2]))
+					continue
+				if ans is None or mops is None:
+					continue
+				if not same_calls(calls, mops[:m], key, coll, f'writer that {where}'):
+					continue
+				if cl is not None:
+					ctx.broke('model raised_disk (a writer that raises leaves a well-formed HDF5 file: clean close)',
+					          f'writer that {where} left a file libhdf5 cannot read (class {cl})')
+					continue
+				mfix, mcur = c12.mres(ans[at[i]][0]), c12.mres(ans[at[i]][1])
+				if got[0] == 'ok':
+					# accepted and identical to the requested collection: only when the model says so too (all calls done)
+					if mfix[0] != 'ok' and not c.get('short'):
+						ctx.broke('correspondence crash (exception death: the model refuses the file, load_signatures accepts it -- as the requested collection)',
+						          f'writer that {where} after {m} calls; model {mfix} on {coll}')
+				elif got not in (mfix, mcur):
+					ctx.broke('correspondence crash (error class of the refusal after an exception death)', f'writer that {where}: impl {got} model repaired {mfix} / unrepaired {mcur}')
+				continue
 		# ---- the writer itself
-		if n is None:
+		if completed:
 			if code != 0:
 				ctx.violation('crash', c, f'uninterrupted write failed (child exit {code}): {calls[-1:] }', impl=code, spec=0)
 				continue
@@ -295,7 +483,7 @@ def k_crash(ctx, cases):
 			ctx.broke('fault injection', f'child exit {code} at boundary {n}: {calls[-1:]}')
 			continue
 		# ---- (b) the property
-		if n is None:
+		if completed:
 			if got[0] != 'ok' or got[1]:
 				ctx.violation('crash', c, f'the file of a completed write does not load as what was written: {got[1] if got[0] == "ok" else got}',
 				              impl=got, spec='loads as the written collection')
@@ -303,35 +491,32 @@ def k_crash(ctx, cases):
 		else:
 			if got[0] == 'ok' and got[1]:
 				ctx.violation('crash', c, f'writer killed after {n} storage calls left a file that is ACCEPTED and loads as a different '
-				              f'collection: {"; ".join(got[1][:3])}', impl=got[2], spec='refused', model=ans and c12.mres(ans[2 * i]))
-				continue
-			if got[0] == 'ok':
-				ctx.broke('durability assumption AtClose', f'writer killed after {n} calls (before close) left a file that loads (as the '
-				          f'written collection): {coll}')
+				              f'collection: {"; ".join(got[1][:3])}', impl=got[2], spec='refused', model=ans and c12.mres(ans[at[i]]))
 				continue
 		if ans is None or mops is None:
 			continue
 		# ---- (a1) observed calls = model prefix
-		want = mops if n is None else mops[:n]
-		canon = lambda l: [[o[0], o[1], c12.canon_extra(o[2])] if o[:2] == [0, 8] else o for o in l]
-		if canon(calls) != canon(want):
-			j = next((j for j in range(min(len(calls), len(want))) if calls[j] != want[j]), min(len(calls), len(want)))
-			ctx.broke('correspondence crash (sequence of storage calls != dump_ops)',
-			          f'first difference at call {j}: impl {calls[j:j + 1]} model {want[j:j + 1]} (impl {len(calls)} calls, model {len(want)}) on {coll}')
+		if not same_calls(calls, mops if completed else mops[:n], key, coll, 'completed write' if completed else f'writer killed at boundary {n}'):
 			continue
-		if n is not None and total is not None and n > total:
+		if not completed and total is not None and n > total:
 			ctx.broke('correspondence crash (boundary beyond the model call list)', f'n={n} total={total}')
 			continue
 		# ---- (a2) error class under AtClose (repaired or unrepaired reader)
-		mfix, mcur = c12.mres(ans[2 * i]), c12.mres(ans[2 * i + 1])
-		if n is None:
+		mfix, mcur = c12.mres(ans[at[i]]), c12.mres(ans[at[i] + 1])
+		if completed:
 			if mfix[0] != 'ok' or (mfix[1][5], mfix[1][6]) != ([v for s in coll['sigs'] for v in s], _bounds(coll['sigs'])):
 				ctx.broke('model closed_disk/load_file != written collection', f'{mfix} on {coll}')
 		else:
-			if cl is None:
-				ctx.broke('durability assumption AtClose', f'file left after {n} calls is a readable HDF5 file (refused later: {got})')
-			elif got not in (mfix, mcur):
-				ctx.broke('correspondence crash (error class of the refusal)', f'impl {got} model repaired {mfix} / unrepaired {mcur}')
+			ctx.count('crash:remains-unreadable-for-libhdf5(policy AtClose)' if cl is not None else 'crash:completed-calls-on-disk-before-close(policy FlushedAt k)')
+			answers = [mfix, mcur] + ([c12.mres(ans[at[i] + 2]), c12.mres(ans[at[i] + 3])] if cl is None else [])
+			if got[0] == 'ok':
+				# accepted, and identical to the requested collection: only when the model says so too (every call done and on the disk)
+				if mfix[0] != 'ok' and not c.get('short'):
+					ctx.broke('correspondence crash (a killed writer left a file that load_signatures accepts -- as the requested collection -- and the model refuses)',
+					          f'killed after {n} calls, policy {"AtClose" if cl is not None else "Eager"}: model {mfix} on {coll}')
+			elif got not in answers:
+				ctx.broke('correspondence crash (error class of the refusal)', f'killed after {n} calls, policy {"AtClose" if cl is not None else "FlushedAt k, k = n or n - 1"}: '
+				          f'impl {got} model {answers}')
 
 
 _expanded = {}
@@ -374,16 +559,38 @@ def _bounds(sigs):
 KILL_EXIT = 17
 
 
-def event_hooks(at, kill, logfd, classes):
+KILLS = ('exit', 'sigkill', 'raise', 'sigint', 'sigterm')
+
+
+def event_hooks(at, kill, logfd, classes, exc=None):
 	"""the counting hooks of a forked writer: gate(cls) is called immediately before an event of class cls in the writer's main
-	process and kills it there when that is the chosen point `at` = [cls, j]; log(cls, what) records a completed event"""
+	process and makes it die there when that is the chosen point `at` = [cls, j]; log(cls, what) records a completed event.
+	Kinds of death (`kill`):
+	  exit     os._exit                         sigkill  SIGKILL to itself
+	  raise    the exception `exc` (EXCS) is raised inside the hook, i.e. it comes out of the storage-library call / the progress
+	           meter like an I/O error, a MemoryError or a KeyboardInterrupt would, and propagates through the writer normally
+	  sigint   a real SIGINT is delivered to the process (Python's handler raises KeyboardInterrupt at that point)
+	  sigterm  a real SIGTERM is delivered (default disposition: the process dies at once; a handler installed by the writer --
+	           e.g. one that calls sys.exit() -- runs instead)
+	fired[0] tells the caller that the death point was reached (an exception that leaves the writer afterwards is the death)."""
+	import time
 	main = os.getpid()
 	seen = {c: 0 for c in classes}
+	fired = [False]
 
 	def gate(cls):
 		if os.getpid() != main:
 			return False
-		if at is not None and at[0] == cls and seen[cls] == at[1]:
+		if at is not None and at[0] == cls and seen[cls] == at[1] and not fired[0]:
+			fired[0] = True
+			if kill == 'raise':
+				raise make_exc(exc or 'KeyboardInterrupt')
+			if kill in ('sigint', 'sigterm'):
+				os.kill(main, signal.SIGINT if kill == 'sigint' else signal.SIGTERM)
+				# the signal is handled here: the default SIGTERM kills, Python's SIGINT handler (or a handler of the writer) raises
+				for _ in range(1000):
+					time.sleep(0.01)
+				os._exit(19)   # the signal was ignored
 			if kill == 'sigkill':
 				os.kill(main, signal.SIGKILL)
 				while True:
@@ -404,7 +611,37 @@ def event_hooks(at, kill, logfd, classes):
 			return r
 		return w
 
-	return gate, log, hooked
+	return gate, log, hooked, fired
+
+
+def died_as_told(code, kill, events):
+	"""did the child die the way the case says?  exit / sigkill: that exit status; raise / sigint: the exception left the writer
+	(RAISE_EXIT, logged as DIED); sigterm: killed by the signal, or -- a writer with a SIGTERM handler -- an exception left it"""
+	if kill == 'exit':
+		return code == KILL_EXIT
+	if kill == 'sigkill':
+		return code == -signal.SIGKILL
+	if kill == 'sigterm' and code == -signal.SIGTERM:
+		return True
+	return code == RAISE_EXIT and any(e[0] == 'DIED' for e in events)
+
+
+def wait_child(pid, limit=300):
+	"""waitpid with a limit (a writer that hangs after a signal is killed and reported)"""
+	import time
+	t0 = time.time()
+	while True:
+		r, st = os.waitpid(pid, os.WNOHANG)
+		if r == pid:
+			return st
+		if time.time() - t0 > limit:
+			for f in (lambda: os.killpg(pid, signal.SIGKILL), lambda: os.kill(pid, signal.SIGKILL)):
+				try:
+					f()
+				except (ProcessLookupError, PermissionError):
+					pass
+			return os.waitpid(pid, 0)[1]
+		time.sleep(0.002)
 
 
 def _opened(self, name, mode='r', *a, **kw):
@@ -431,7 +668,7 @@ def install_store_hooks(hooked):
 	h5py.File.flush = hooked('store', 'flush', h5py.File.flush)
 
 
-def cli_child_main(args, at, kill, logfd):
+def cli_child_main(args, at, kill, logfd, exc=None):
 	"""runs in the forked child: install the counting hooks, run the click command, die before the j-th event of a class"""
 	import sys
 	import gambit.cli
@@ -441,7 +678,10 @@ def cli_child_main(args, at, kill, logfd):
 	null = os.open(os.devnull, os.O_RDWR)
 	for fd in (0, 1, 2):
 		os.dup2(null, fd)
-	gate, log, hooked = event_hooks(at, kill, logfd, ('calc', 'store'))
+	# the dispositions a freshly started `gambit` process has (whatever the harness process had installed)
+	signal.signal(signal.SIGINT, signal.default_int_handler)
+	signal.signal(signal.SIGTERM, signal.SIG_DFL)
+	gate, log, hooked, fired = event_hooks(at, kill, logfd, ('calc', 'store'), exc)
 
 	# calc events: entry / return of calc_file_signatures (every binding of the function in a gambit module) ...
 	real = calc.calc_file_signatures
@@ -466,18 +706,24 @@ def cli_child_main(args, at, kill, logfd):
 	install_store_hooks(hooked)
 	try:
 		gambit.cli.cli.main(args=args, prog_name='gambit', standalone_mode=False)
-	except SystemExit as e:
-		os._exit(0 if e.code in (None, 0) else 5)
+	except BaseException as e:
+		if fired[0]:
+			# the exception of the death point (or what click made of it: Abort for a KeyboardInterrupt) has left the command
+			os.write(logfd, (json.dumps(['DIED', type(e).__name__]) + '\n').encode())
+			os._exit(RAISE_EXIT)
+		if isinstance(e, SystemExit):
+			os._exit(0 if e.code in (None, 0) else 5)
+		raise
 	os._exit(0)
 
 
-def run_cli_writer(args, at, kill, logpath):
+def run_cli_writer(args, at, kill, logpath, exc=None):
 	"""-> (exit code of the child (negative: signal), events that completed in its main process)"""
 	logfd = os.open(logpath, os.O_WRONLY | os.O_CREAT | os.O_TRUNC, 0o600)
 	pid = os.fork()
 	if pid == 0:
 		try:
-			cli_child_main(args, at, kill, logfd)
+			cli_child_main(args, at, kill, logfd, exc)
 		except BaseException as e:
 			try:
 				os.write(logfd, (json.dumps(['EXC', repr(e)]) + '\n').encode())
@@ -485,7 +731,7 @@ def run_cli_writer(args, at, kill, logpath):
 				os._exit(3)
 		os._exit(4)
 	os.close(logfd)
-	_, st = os.waitpid(pid, 0)
+	st = wait_child(pid)
 	try:
 		# the pool workers die with the command (own process group, see cli_child_main)
 		os.killpg(pid, signal.SIGKILL)
@@ -567,7 +813,7 @@ def k_cli_kill(ctx, cases):
 			old = pre_coll(pre, same)
 			make_pre(out, pre, same)
 			before = path_state(out)
-			code, events = run_cli_writer(args, at, kill, os.path.join(d, 'events.log'))
+			code, events = run_cli_writer(args, at, kill, os.path.join(d, 'events.log'), c.get('exc'))
 			after = path_state(out)
 			size = after[0] if after else None
 			note = None
@@ -592,7 +838,8 @@ def k_cli_kill(ctx, cases):
 				got = ('absent',)
 		finally:
 			shutil.rmtree(d, ignore_errors=True)
-		killed = code == (-signal.SIGKILL if kill == 'sigkill' else KILL_EXIT)
+		killed = died_as_told(code, kill, events)
+		how = kill if kill != 'raise' else f'raise {c.get("exc") or "KeyboardInterrupt"}'
 		done = [e for e in events if e[0] in ('calc', 'store')]
 		started = bool(done)
 		touched = writer_touched(events, out, before, after)
@@ -623,7 +870,7 @@ def k_cli_kill(ctx, cases):
 		if got[0] in ('ok', 'unreadable'):
 			bad = [got[1]] if got[0] == 'unreadable' else cli_differences(got[1], want)
 			if bad:
-				ctx.violation('cli_kill', c, f'`gambit signatures create` (OUT held before: {pre["form"]}) killed ({kill}) before {at[0]} event {at[1]} '
+				ctx.violation('cli_kill', c, f'`gambit signatures create` (OUT held before: {pre["form"]}) died ({how}) before {at[0]} event {at[1]} '
 				              f'(completed before the kill: {len(done)} events, last [{trail}]) left an output file ({size} bytes) that '
 				              f'load_signatures ACCEPTS as a different collection: {"; ".join(bad)}' + (f' -- {note}' if note else ''),
 				              impl=got[1], spec=dict(want, note='or absent / refused'), events=[f'{e[0]}:{e[1]}' for e in done])
@@ -720,7 +967,11 @@ def remains_note(s, old, before, after):
 	if old is None:
 		return 'the path held no complete signature file before'
 	same_bytes = 'the bytes at the path are unchanged' if before == after else 'the bytes at the path have changed'
-	if not c12.observe(s, old):
+	try:
+		differs = c12.observe(s, old)
+	except (ValueError, TypeError):
+		differs = ['its ids are not of the kind of the old ids']   # observe converts the ids to the type of the expected ones
+	if not differs:
 		return f'it is exactly the OLD collection that was at the path before ({same_bytes})'
 	return f'it is neither the requested nor the old collection: a mixture ({same_bytes})'
 
@@ -747,23 +998,34 @@ def load_remains(load_signatures, path, coll, old, before, after):
 		return ('ok', bad, first), note
 
 
-def over_child_main(coll, path, at, kill, logfd):
-	"""runs in the forked child: count the storage-library calls of one dump_signatures(path, x), die before the j-th"""
+def over_child_main(coll, path, at, kill, logfd, exc=None, source=None):
+	"""runs in the forked child: count the storage-library calls of one dump_signatures(path, x), die before the j-th
+	(or, source = [i, exc]: the signature source raises exc at its i-th access)"""
 	from gambit.sigs import dump_signatures
-	gate, log, hooked = event_hooks(at, kill, logfd, ('store',))
+	signal.signal(signal.SIGINT, signal.default_int_handler)
+	signal.signal(signal.SIGTERM, signal.SIG_DFL)
+	gate, log, hooked, fired = event_hooks(at, kill, logfd, ('store',), exc)
 	install_store_hooks(hooked)
 	obj = c12.build(coll)
-	dump_signatures(path, obj, **({} if coll.get('compression') is None else dict(compression=coll['compression'])))
+	if source is not None:
+		arm_source(obj, source[0], source[1], fired)
+	try:
+		dump_signatures(path, obj, **({} if coll.get('compression') is None else dict(compression=coll['compression'])))
+	except BaseException as e:
+		if not fired[0]:
+			raise
+		os.write(logfd, (json.dumps(['DIED', type(e).__name__]) + '\n').encode())
+		os._exit(RAISE_EXIT)
 	os._exit(0)
 
 
-def run_over_writer(coll, path, at, kill):
+def run_over_writer(coll, path, at, kill, exc=None, source=None):
 	logpath = path + '.log'
 	logfd = os.open(logpath, os.O_WRONLY | os.O_CREAT | os.O_TRUNC, 0o600)
 	pid = os.fork()
 	if pid == 0:
 		try:
-			over_child_main(coll, path, at, kill, logfd)
+			over_child_main(coll, path, at, kill, logfd, exc, source)
 		except BaseException as e:
 			try:
 				os.write(logfd, (json.dumps(['EXC', repr(e)]) + '\n').encode())
@@ -771,7 +1033,7 @@ def run_over_writer(coll, path, at, kill):
 				os._exit(3)
 		os._exit(4)
 	os.close(logfd)
-	_, st = os.waitpid(pid, 0)
+	st = wait_child(pid)
 	with open(logpath) as f:
 		events = [json.loads(l) for l in f if l.strip()]
 	os.unlink(logpath)
@@ -789,9 +1051,12 @@ def k_over_kill(ctx, cases):
 			path = c12.tmp('ov') + '.gs'
 			make_pre(path, pre, coll, cache)
 			before = path_state(path)
-			code, events = run_over_writer(coll, path, None if at is None else ['store', at], kill)
+			source = c.get('source')
+			code, events = run_over_writer(coll, path, None if at is None else ['store', at], kill, c.get('exc'), source)
 			after = path_state(path)
-			killed = code == (-signal.SIGKILL if kill == 'sigkill' else KILL_EXIT)
+			killed = died_as_told(code, 'raise' if source else kill, events)
+			how = (f'interrupted by {source[1]} raised by the signature source at its access {source[0]}' if source else
+			       f'died ({kill if kill != "raise" else "raise " + (c.get("exc") or "KeyboardInterrupt")}) before storage call {at}')
 			touched = writer_touched(events, path, before, after)
 			note = None
 			if after is None:
@@ -818,7 +1083,7 @@ def k_over_kill(ctx, cases):
 					              f'written: {"; ".join(got[1][:3]) if got[0] == "ok" else got}' + (f' -- {note}' if note else ''),
 					              impl=got, spec='loads as the written collection')
 				continue
-			if not killed or at is None:
+			if not killed or (at is None and not source):
 				ctx.broke('fault injection over_kill', f'child exit {code} at {at} after [{trail}]: {c}')
 				continue
 			if not touched:
@@ -827,20 +1092,29 @@ def k_over_kill(ctx, cases):
 				continue
 			# ---- the property: what a killed writer leaves at the path is absent, refused, or exactly what was being written
 			if got[0] == 'ok' and got[1]:
-				ctx.violation('over_kill', c, f'dump_signatures over a pre-existing file ({pre["form"]}) killed ({kill}) before storage call {at} '
+				ctx.violation('over_kill', c, f'dump_signatures over a pre-existing file ({pre["form"]}) {how} '
 				              f'(completed: {len(done)} calls, last [{trail}]) left a file that load_signatures ACCEPTS and that is not the '
 				              f'collection being written: {"; ".join(got[1][:3])} -- {note}', impl=got[2], spec='refused, absent, or exactly the written collection',
 				              events=[' '.join(e[1:2]) for e in done])
 				continue
-			if got[0] == 'err' and cl is None:
-				ctx.broke('durability assumption AtClose (hypothesis `unparsable junk` of C19_atclose / C19_complete)',
-				          f'writer over a pre-existing file ({pre["form"]}) killed before storage call {at} left a readable HDF5 file (refused later: {got}): {c}')
+			if got[0] == 'err' and code != RAISE_EXIT:
+				# what a KILLED writer left: remains libhdf5 cannot read (policy AtClose) or a readable HDF5 file (its completed calls are on
+				# the disk: policy Eager); refused either way, as C19_overwrite_truncate_any_policy says -- observed, not assumed
+				ctx.count('over_kill:remains-unreadable-for-libhdf5(policy AtClose)' if cl is not None else 'over_kill:readable-hdf5-refused(policy Eager)')
 	finally:
 		for m in cache.values():
 			c12._rm(m)
 
 
 KINDS = {'crash': k_crash, 'cli_kill': k_cli_kill, 'over_kill': k_over_kill}
+
+
+def n_accesses(coll):
+	"""number of accesses the writer makes to the signature source (arm_source): bounds (for len()), values, bounds of a SignatureArray;
+	for the per-signature path each signature is read once for sizes() and once in the loop, a plain SignatureList is also asked
+	sizes() (the generators add one point beyond: a point that is never reached is a completed write, and is judged as one)"""
+	n = len(coll['sigs'])
+	return {'array': 3, 'list': 2 * n + 1}.get(coll['container'], 2 * n)
 
 
 def n_calls(coll):
@@ -877,6 +1151,20 @@ def generate(ctx):
 	ctx.extra['exhaustive_scope'] = ('for each of the listed collections (both write paths, 4 container types, filters, empty signatures, '
 	                                 'u64 values): every boundary 0..N between storage-library calls, N = all calls done but file not closed, '
 	                                 'plus the uninterrupted write')
+	# ---- death by an exception: at EVERY storage call the hook raises (the exception type rotates over EXCS), the exception leaves
+	# dump_signatures through the `with h5.File` block, which closes the file cleanly
+	for ci, coll in enumerate(colls[:ctx.pick(19, len(colls))]):
+		for n in range(n_calls(coll)):
+			ctx.count('stream:every-call-raise')
+			yield 'crash', dict(coll=coll, n=n, death=dict(mode='raise', exc=EXCS[(ci + n) % len(EXCS)]))
+	# ---- ... and an exception raised by the signature SOURCE while the writer reads it: every access (sizes(), each __getitem__;
+	# values / bounds of a SignatureArray) and one beyond the last (the write completes)
+	for ci, coll in enumerate(colls[:ctx.pick(15, len(colls))]):
+		for i in range(n_accesses(coll) + 1):
+			ctx.count('stream:source-exception')
+			yield 'crash', dict(coll=coll, death=dict(mode='source', at=i, exc=EXCS[(ci + i) % len(EXCS)]))
+	ctx.extra['exhaustive_scope'] += ('; exception deaths: for the first 19 / 15 (quick) or all (thorough) of those collections an exception raised '
+	                                 'inside the hook of every storage-library call, and by the signature source at every one of its accesses')
 	# multi-megabyte payloads (chunk data is written to the file long before close; the metadata is not)
 	# quick: one collection, a few boundaries in the per-signature phase; thorough: three, every boundary
 	for cont, comp in ((('list', None),) if ctx.quick else (('list', None), ('array', None), ('annot_list', 'gzip'))):
@@ -888,6 +1176,11 @@ def generate(ctx):
 		for n in points:
 			ctx.count('stream:large-payload')
 			yield 'crash', dict(coll=coll, n=n, short=True)
+		# the same payload, the writer raises in the per-signature loop: the chunks written so far and zero-filled space are in the
+		# file, which is closed cleanly
+		for n in ([total // 2, total - 2] if ctx.quick else range(total)):
+			ctx.count('stream:large-payload-raise')
+			yield 'crash', dict(coll=coll, n=n, short=True, death=dict(mode='raise', exc=EXCS[n % len(EXCS)]))
 	yield from gen_cli_kill(ctx, rng)
 	yield from gen_over_kill(ctx, rng)
 	yield from gen_cli_over(ctx, rng)
@@ -948,6 +1241,21 @@ def gen_over_kill(ctx, rng):
 			for at in over_points(new, ctx.pick(2, 12)):
 				ctx.count('stream:overwrite-every-point')
 				yield 'over_kill', dict(pre=pre, coll=new, at=at, kill='exit')
+	# ---- the same overwrites, the writer dies by an exception: raised inside the hook of every store call (open, each storage call,
+	# close; the type rotates), a real SIGINT / SIGTERM at every store call, the signature source raising at every access
+	for ni, new in enumerate(news):
+		for pi, pre in enumerate([pres[0], pres[3], dict(form='none')] if ctx.quick else pres + [dict(form='none')]):
+			pts = [at for at in over_points(new, 1) if at is not None]
+			for at in pts:
+				ctx.count('stream:overwrite-every-point-raise')
+				yield 'over_kill', dict(pre=pre, coll=new, at=at, kill='raise', exc=EXCS[(ni + pi + at) % len(EXCS)])
+			if pi == 0 or not ctx.quick:
+				for at in pts:
+					ctx.count('stream:overwrite-every-point-signal')
+					yield 'over_kill', dict(pre=pre, coll=new, at=at, kill='sigint' if (at + ni) % 2 else 'sigterm')
+			for i in range(n_accesses(new) + 1):
+				ctx.count('stream:overwrite-source-exception')
+				yield 'over_kill', dict(pre=pre, coll=new, at=None, kill='raise', source=[i, EXCS[(ni + pi + i) % len(EXCS)]])
 	ctx.extra['exhaustive_scope'] += ('; over_kill: for two collections (both write paths) written over a smaller / equal-sized / larger other '
 	                                 'collection and over the same collection: every kill point between two storage-library calls of '
 	                                 'dump_signatures from before the open to inside the close')
@@ -960,7 +1268,8 @@ def gen_over_kill(ctx, rng):
 		pts = over_points(new, 0)
 		for at in [rng.randint(1, n_calls(new)), n_calls(new)] + rng.sample(pts, ctx.pick(1, 6)):
 			ctx.count('stream:overwrite-random')
-			yield 'over_kill', dict(pre=pre, coll=new, at=at, kill=rng.choice(['exit', 'sigkill']))
+			kill = rng.choice(KILLS)
+			yield 'over_kill', dict(pre=pre, coll=new, at=at, kill=kill, **(dict(exc=rng.choice(EXCS)) if kill == 'raise' else {}))
 	# ---- multi-megabyte payloads over multi-megabyte files (raw data goes to the disk at once, metadata at close): the old file
 	# is smaller / about as large / larger; kill points in the per-signature phase (thorough: every point, both paths)
 	nsig, per = 12, 120000
@@ -974,6 +1283,9 @@ def gen_over_kill(ctx, rng):
 			for at in ([total - nsig + 1, total - nsig // 2, total] if ctx.quick else list(range(0, total + 5)) + [None]):
 				ctx.count('stream:overwrite-large-payload')
 				yield 'over_kill', dict(pre=pre, coll=new, at=at, kill='sigkill')
+			for at in ([total - nsig // 2] if ctx.quick else range(1, total + 1)):
+				ctx.count('stream:overwrite-large-payload-raise')
+				yield 'over_kill', dict(pre=pre, coll=new, at=at, kill='raise' if m != 12 else 'sigint', exc='MemoryError')
 
 
 def gen_cli_over(ctx, rng):
@@ -990,6 +1302,11 @@ def gen_cli_over(ctx, rng):
 	for at in cli_points(n, ctx.pick(3, 20)):
 		ctx.count('stream:cli-kill-overwrite-every-point')
 		yield 'cli_kill', dict(base, pre=pre, at=at)
+	for ki, kill in enumerate(('sigint', 'raise') if ctx.quick else ('sigint', 'raise', 'sigterm')):
+		for at in cli_points(n, 1):
+			if at is not None and (at[0] == 'store' or not ctx.quick):
+				ctx.count(f'stream:cli-{kill}-overwrite-every-point')
+				yield 'cli_kill', dict(base, pre=pre, at=at, kill=kill, **(dict(exc=EXCS[(at[1] + ki) % len(EXCS)]) if kill == 'raise' else {}))
 	ctx.extra['exhaustive_scope'] += '; cli_kill: every kill point of one command whose OUT already holds the complete file of another collection'
 	# ---- random commands over random pre-existing contents
 	for _ in range(ctx.pick(8, 100)):
@@ -999,8 +1316,10 @@ def gen_cli_over(ctx, rng):
 		base = dict(k=k, prefix=prefix, genomes=[rgenome(rng, prefix, k) for _ in range(n)],
 		            ids=None if rng.random() < 0.4 else [f'{rng.choice(["id", "é", "G"])}{i}' for i in range(n)],
 		            meta=None if rng.random() < 0.4 else dict(id=c12.rstr(rng), name='n', version='1.0', id_attr='key', description=c12.rstr(rng), extra={'n': [1, None]}),
-		            cores=rng.choice([1, 2]), progress=rng.random() < 0.5, via=rng.choice(['args', 'listfile']), kill=rng.choice(['exit', 'sigkill']),
+		            cores=rng.choice([1, 2]), progress=rng.random() < 0.5, via=rng.choice(['args', 'listfile']), kill=rng.choice(KILLS),
 		            width=rng.choice([None, 70]), pre=rpre(rng, k, prefix, c12.index_dtype(k), n, weights=(0, 50, 10, 14, 13, 13)))
+		if base['kill'] == 'raise':
+			base['exc'] = rng.choice(EXCS)
 		for at in [['calc', n + 1], ['store', rng.randint(1, 14 + n)], rng.choice(cli_points(n, 0))]:
 			ctx.count('stream:cli-kill-overwrite-random')
 			yield 'cli_kill', dict(base, at=at)
@@ -1037,6 +1356,15 @@ def gen_cli_kill(ctx, rng):
 		for at in cli_points(sh['n'], ctx.pick(3, 20)):
 			ctx.count('stream:cli-kill-every-point')
 			yield 'cli_kill', dict(base, at=at)
+		# the same command, every point again, the command dying by an exception: raised inside the hook (types rotate), a real SIGINT
+		# (Ctrl-C: KeyboardInterrupt, click turns it into Abort), a real SIGTERM
+		for ki, kill in enumerate(('raise', 'sigint', 'sigterm')):
+			if ctx.quick and sh is not shapes[0] and kill != 'sigint':
+				continue
+			for at in cli_points(sh['n'], 1):
+				if at is not None:
+					ctx.count(f'stream:cli-{kill}-every-point')
+					yield 'cli_kill', dict(base, at=at, kill=kill, **(dict(exc=EXCS[(at[1] + ki) % len(EXCS)]) if kill == 'raise' else {}))
 	ctx.extra['exhaustive_scope'] += ('; cli_kill: for two `gambit signatures create` commands every kill point of the command\'s main process: '
 	                                 'before each calc event (entry, one per genome, return) and before each storage-library call from the '
 	                                 'start of the command up to the close of the final write')
@@ -1052,7 +1380,9 @@ def gen_cli_kill(ctx, rng):
 		            meta=None if rng.random() < 0.4 else dict(id=c12.rstr(rng), name='n', version='1.0', id_attr='key', description=c12.rstr(rng),
 		                                                      extra={'author': c12.rstr(rng), 'n': [1, None]}),
 		            cores=rng.choice([1, 2, 3]), progress=rng.random() < 0.5, via=rng.choice(['args', 'listfile']),
-		            kill=rng.choice(['exit', 'sigkill']), width=rng.choice([None, 1, 70]))
+		            kill=rng.choice(KILLS), width=rng.choice([None, 1, 70]))
+		if base['kill'] == 'raise':
+			base['exc'] = rng.choice(EXCS)
 		pts = cli_points(n, 0)
 		for at in [['calc', rng.randint(1, n)], ['calc', n + 1]] + rng.sample(pts, ctx.pick(2, 8)):
 			ctx.count('stream:cli-kill-random')
